@@ -350,6 +350,9 @@ func importFrom(p *Prog, r *Report, R, desc string, run func(tmp *Report, rule s
 	for _, o := range tmp.Obs {
 		keep := len(rels) == 1 && rels[0] == "*"
 		for _, rel := range rels {
+			if strings.HasPrefix(rel, "rule=") && o.Rule == rel[5:] {
+				keep = true
+			}
 			if strings.HasPrefix(o.Key, rel+".") || strings.HasPrefix(o.Key, rel+"/") || strings.Contains(o.Key, "/"+rel+".") {
 				keep = true
 			}
